@@ -11,6 +11,7 @@ independent reader, not proved end to end.
 import RichchkModel.Model.RichEdit
 import RichchkModel.Lemmas.PassThrough
 import RichchkModel.Lemmas.RebuildLemmas
+import RichchkModel.Lemmas.OrderFree
 namespace Richchk.Props.C07
 open Richchk
 
@@ -190,5 +191,135 @@ theorem c07_existing_cuwp_records_unchanged {cfg : RichCfg} {secs : List RSectio
   refine ⟨table, ht, fun i hi hex => ?_⟩
   simp only [encodeUprp, List.getElem?_map, List.getElem?_range hi, Option.map_some]
   rw [hfind (i + 1) hex]
+
+/-! ### switch names -/
+
+/-- the placement loop of the switch rebuild, seen from one slot `i` that is to hold the named switch `x`:
+once `x` is there it stays; while it is still to come, the slot holds an unnamed entry -/
+theorem rebuildSwnm_go_keeps (i : Nat) (x : RSwitch) (hxi : x.idx = some i) (hxn : hasCustomName x = true) :
+    ∀ (ss : List RSwitch) (free : List Nat) (tbl : List RSwitch) (ids : List (RSwitch × Nat))
+      (out : List RSwitch) (oids : List (RSwitch × Nat)),
+      i ∉ free →
+      (∀ u ∈ ss, u.idx = some i → hasCustomName u = true → u = x) →
+      (tbl[i]? = some x ∨ (x ∈ ss ∧ ∃ cur, tbl[i]? = some cur ∧ hasCustomName cur = false)) →
+      rebuildSwnm.go ss free tbl ids = .ok (out, oids) → out[i]? = some x := by
+  intro ss
+  induction ss with
+  | nil =>
+    intro free tbl ids out oids _ _ hP h
+    simp only [rebuildSwnm.go, Except.ok.injEq, Prod.mk.injEq] at h
+    obtain ⟨rfl, _⟩ := h
+    rcases hP with hP | ⟨hm, _⟩
+    · exact hP
+    · simp at hm
+  | cons s rest ih =>
+    intro free tbl ids out oids hfree hss hP h
+    have hss' : ∀ u ∈ rest, u.idx = some i → hasCustomName u = true → u = x :=
+      fun u hu => hss u (List.mem_cons_of_mem _ hu)
+    simp only [rebuildSwnm.go] at h
+    split at h
+    · rename_i j hj
+      split at h
+      · simp at h
+      · rename_i cur hcur
+        have hjlt : j < tbl.length := (List.getElem?_eq_some_iff.mp hcur).1
+        by_cases hji : j = i
+        · subst hji
+          split at h
+          · rename_i hcond
+            -- the slot is overwritten by `s`
+            refine ih free _ _ out oids hfree hss' ?_ h
+            rcases hP with hP | ⟨hm, cur', hc', hu'⟩
+            · -- x is there: cur = x is named, so s must be named, hence s = x
+              rw [hcur] at hP
+              have hcx : cur = x := Option.some.inj hP
+              have hsn : hasCustomName s = true := by
+                rw [hcx, hxn] at hcond
+                simpa using hcond
+              have hsx : s = x := hss s (by simp) hj hsn
+              left; rw [hsx]; simp [hjlt]
+            · by_cases hsn : hasCustomName s = true
+              · have hsx : s = x := hss s (by simp) hj hsn
+                left; rw [hsx]; simp [hjlt]
+              · right
+                have hne : s ≠ x := fun e => hsn (e ▸ hxn)
+                refine ⟨?_, s, by simp [hjlt], by simpa using hsn⟩
+                rcases List.mem_cons.mp hm with e | e
+                · exact absurd e.symm hne
+                · exact e
+          · rename_i hcond
+            -- not overwritten: the slot holds a named entry and `s` is unnamed
+            refine ih free _ _ out oids hfree hss' ?_ h
+            rcases hP with hP | ⟨hm, cur', hc', hu'⟩
+            · exact .inl hP
+            · rw [hcur] at hc'; cases hc'
+              simp [hu'] at hcond
+        · -- another slot
+          have hne : s ≠ x := fun e => hji (by rw [e, hxi] at hj; cases hj; rfl)
+          have hrest : x ∈ s :: rest → x ∈ rest := fun hm => by
+            rcases List.mem_cons.mp hm with e | e
+            · exact absurd e.symm hne
+            · exact e
+          split at h
+          · refine ih free _ _ out oids hfree hss' ?_ h
+            rcases hP with hP | ⟨hm, cur', hc', hu'⟩
+            · left; rw [List.getElem?_set_ne hji]; exact hP
+            · right; exact ⟨hrest hm, cur', by rw [List.getElem?_set_ne hji]; exact hc', hu'⟩
+          · refine ih free _ _ out oids hfree hss' ?_ h
+            rcases hP with hP | ⟨hm, cur', hc', hu'⟩
+            · exact .inl hP
+            · exact .inr ⟨hrest hm, cur', hc', hu'⟩
+    · rename_i hnone
+      split at h
+      · simp at h
+      · rename_i f fs
+        have hfi : f ≠ i := fun e => hfree (by simp [e])
+        have hne : s ≠ x := fun e => by rw [e, hxi] at hnone; cases hnone
+        refine ih fs _ _ out oids (fun hm => hfree (List.mem_cons_of_mem _ hm)) hss' ?_ h
+        rcases hP with hP | ⟨hm, cur', hc', hu'⟩
+        · left; rw [List.getElem?_set_ne hfi]; exact hP
+        · right
+          refine ⟨?_, cur', by rw [List.getElem?_set_ne hfi]; exact hc', hu'⟩
+          rcases List.mem_cons.mp hm with e | e
+          · exact absurd e.symm hne
+          · exact e
+
+/-- **a switch the map names keeps its name through any save**: if the stored switch table names
+switch `i` (once), and whatever the rich sections say about switch `i` by name agrees with that name
+(they may also refer to it by number alone, or not at all), then slot `i` of the rebuilt table is that
+very entry — whatever else the edits added, in whatever order a set hands the switches over -/
+theorem c07_named_switch_keeps_name {cfg : RichCfg} {secs : List RSection} {order : Option (List Nat)}
+    {tbl : List RSwitch} {ids : List (RSwitch × Nat)}
+    (h : rebuildSwnm cfg secs order = .ok (tbl, ids))
+    (ss : List RSwitch) (hs : secs.filter (isSectionNamed nSWNM) = [.swnm ss])
+    (x : RSwitch) (hx : x ∈ ss) (hxn : hasCustomName x = true) (i : Nat) (hxi : x.idx = some i)
+    (hi : i < cfg.switchSlots)
+    (huniq : ∀ u ∈ ss, u.idx = some i → hasCustomName u = true → u = x)
+    (hused : ∀ u ∈ (secs.filter (fun s => !isSectionNamed nSWNM s)).flatMap (sectionSwitches cfg),
+      u.idx = some i → hasCustomName u = true → RSwitch.same x u = true) :
+    tbl[i]? = some x := by
+  unfold rebuildSwnm at h
+  simp only [hs] at h
+  split at h
+  · simp at h
+  · have hxnamed : x ∈ ss.filter hasCustomName := List.mem_filter.mpr ⟨hx, hxn⟩
+    refine rebuildSwnm_go_keeps i x hxi hxn _ _ _ [] tbl ids ?_ ?_ ?_ h
+    · -- i is carried by x, so it is not a free number
+      intro hm
+      have h2 := (List.mem_filter.mp hm).2
+      simp only [Bool.not_eq_true', List.contains_eq_mem, decide_eq_false_iff_not] at h2
+      exact h2 (List.mem_filterMap.mpr ⟨x, List.mem_append_left _ hxnamed, hxi⟩)
+    · intro u hu hui hun
+      rcases List.mem_append.mp hu with hu | hu
+      · exact huniq u (List.mem_filter.mp hu).1 hui hun
+      · exfalso
+        obtain ⟨hu1, hu2⟩ := List.mem_filter.mp hu
+        have hmem := dedupBy_subset RSwitch.same _ u (allocOrder_subset order _ u hu1)
+        have hsame := hused u hmem hui hun
+        simp only [Bool.not_eq_true', List.any_eq_false] at hu2
+        exact absurd hsame (by simpa using hu2 x hxnamed)
+    · right
+      refine ⟨List.mem_append_left _ hxnamed, ⟨.null, some i, 0⟩, ?_, rfl⟩
+      simp [hi]
 
 end Richchk.Props.C07
